@@ -786,3 +786,266 @@ Proof.
     destruct (Nat.eqb n0 n); [|reflexivity]. cbn in Ho. discriminate. }
   rewrite Hhd. cbn [app]. destruct (introduces n o); [reflexivity|exact (IH H)].
 Qed.
+
+(* ---- state invariant of conforming histories on the repaired registry ------------------------- *)
+
+Definition vinv (w : nview) (isopen : bool) : Prop :=
+  match w with
+  | (l1, l2, l3, c) =>
+    if isopen then l1 = None /\ c = true else l2 = None /\ l3 = None /\ c = false
+  end.
+
+Lemma inv_name_view : forall s stk n, inv_name s stk n <-> vinv (view s n) (mem n stk).
+Proof.
+  intros s stk n. unfold inv_name, vinv, view, is_creating. destruct (mem n stk); split.
+  - intros [H _]. apply H. reflexivity.
+  - intros H. split; [intros _; exact H|discriminate].
+  - intros [_ H]. apply H. reflexivity.
+  - intros H. split; [discriminate|intros _; exact H].
+Qed.
+
+Lemma vinv_step : forall s stk o stk',
+  NoDup stk ->
+  (forall n, vinv (view s n) (mem n stk)) ->
+  proto_step stk (o, snd (rstep repaired s o)) = Some stk' ->
+  forall n, vinv (view (fst (rstep repaired s o)) n) (mem n stk').
+Proof.
+  intros s stk o stk' Hnd Hinv Hstep n.
+  destruct (Nat.eq_dec (op_name o) n) as [Hn|Hn].
+  - destruct (step_self repaired s o n Hn) as [Hv' Ho]. specialize (Hinv n).
+    destruct (view s n) as [[[l1 l2] l3] c] eqn:Hv. rewrite Ho in Hstep. rewrite Hv'. clear Hv' Ho.
+    destruct o as [m f|m|m w|m early fout|m|m w|m|m]; cbn [op_name] in Hn; subst m;
+      unfold proto_step in Hstep; cbn [fst snd] in Hstep.
+    + destruct (mem n stk) eqn:Em; [|discriminate]. inversion Hstep; subst stk'. rewrite Em.
+      cbn [vstep fst vinv] in *. exact Hinv.
+    + destruct (mem n stk) eqn:Em; [discriminate|]. inversion Hstep; subst stk'. rewrite Em.
+      cbn [vstep fst vinv]. repeat split; reflexivity.
+    + destruct (mem n stk) eqn:Em; [discriminate|]. inversion Hstep; subst stk'. rewrite Em.
+      cbn [vstep fst vinv] in *. destruct Hinv as [_ [_ Hc]]. split; [reflexivity|split; [reflexivity|exact Hc]].
+    + inversion Hstep; subst stk'. cbn [vstep]. destruct (mem n stk) eqn:Em; cbn [vinv] in Hinv.
+      * destruct Hinv as [H1 Hc]. subst l1 c. destruct l2; [exact (conj eq_refl eq_refl)|].
+        destruct early; [|exact (conj eq_refl eq_refl)].
+        destruct l3; [|exact (conj eq_refl eq_refl)]. destruct fout; exact (conj eq_refl eq_refl).
+      * destruct Hinv as [H2 [H3 Hc]]. subst l2 l3 c.
+        destruct l1; [repeat split; reflexivity|]. destruct early; repeat split; reflexivity.
+    + destruct (mem n stk) eqn:Em; [discriminate|]. cbn [vinv] in Hinv. destruct Hinv as [H2 [H3 Hc]]. subst.
+      cbn [vstep] in *. destruct l1 as [v|]; cbn [snd began fst] in *; inversion Hstep; subst stk'.
+      * rewrite Em. cbn [vinv]. repeat split; reflexivity.
+      * rewrite mem_cons, Nat.eqb_refl. cbn [orb vinv]. split; reflexivity.
+    + destruct (proto_step_end stk (OEndOk n w, snd (vstep repaired (l1, l2, l3, c) (OEndOk n w))) stk' n) as [_ Hm];
+        [unfold proto_step; exact Hstep|cbn; apply Nat.eqb_refl|exact Hnd|].
+      rewrite Hm. cbn [vstep fst vinv]. repeat split; reflexivity.
+    + destruct (proto_step_end stk (OEndErr n, snd (vstep repaired (l1, l2, l3, c) (OEndErr n))) stk' n) as [_ Hm];
+        [unfold proto_step; exact Hstep|cbn; apply Nat.eqb_refl|exact Hnd|].
+      rewrite Hm. cbn [vstep fst vinv repaired fix_c04]. repeat split; reflexivity.
+    + inversion Hstep; subst stk'. cbn [vstep fst]. exact Hinv.
+  - rewrite rstep_view_other by exact Hn.
+    rewrite (proto_step_other _ _ _ n Hstep) by exact Hn. apply Hinv.
+Qed.
+
+Lemma vinv_run : forall ops s stk stk',
+  NoDup stk ->
+  (forall n, vinv (view s n) (mem n stk)) ->
+  stack_from stk (trace_from repaired s ops) = Some stk' ->
+  NoDup stk' /\ forall n, vinv (view (fst (rrun repaired s ops)) n) (mem n stk').
+Proof.
+  induction ops as [|o r IH]; intros s stk stk' Hnd Hinv Hs.
+  - cbn in Hs. inversion Hs; subst. split; [exact Hnd|exact Hinv].
+  - rewrite trace_from_cons in Hs. cbn [stack_from] in Hs.
+    destruct (proto_step stk (o, snd (rstep repaired s o))) as [stk1|] eqn:Hstep; [|discriminate].
+    rewrite rrun_cons. cbn [fst].
+    apply (IH _ stk1 stk' (proto_step_nodup _ _ _ Hstep Hnd)); [|exact Hs].
+    exact (vinv_step s stk o stk1 Hnd Hinv Hstep).
+Qed.
+
+Lemma stack_from_proto : forall tr stk, proto_from stk tr = true <-> exists stk', stack_from stk tr = Some stk'.
+Proof.
+  induction tr as [|e r IH]; intros stk; cbn [proto_from stack_from].
+  - split; [intros _; exists stk; reflexivity|reflexivity].
+  - destruct (proto_step stk e) as [stk1|]; [apply IH|].
+    split; [discriminate|intros [x Hx]; discriminate].
+Qed.
+
+Theorem protocol_invariant : forall ops stk,
+  stack_from [] (trace repaired ops) = Some stk ->
+  NoDup stk /\ forall n, inv_name (state_after repaired ops) stk n.
+Proof.
+  intros ops stk Hs. unfold trace, state_after in *.
+  destruct (vinv_run ops rinit [] stk (NoDup_nil _)) as [Hnd Hinv]; [|exact Hs|].
+  - intros n. cbn. repeat split; reflexivity.
+  - split; [exact Hnd|]. intros n. apply inv_name_view. apply Hinv.
+Qed.
+
+(* ---- sharper window statement for the repaired registry ------------------------------------------- *)
+
+(* inside a window of n: fac = L3 n, cur = L2 n, and nothing else feeds the lookups of n *)
+Lemma fresh_state : forall vt n ops s stk fac cur,
+  proto_from stk (trace_from vt s ops) = true ->
+  mem n stk = true ->
+  view s n = (None, cur, fac, true) ->
+  fresh_from n fac cur (take_window n (trace_from vt s ops)) = true.
+Proof.
+  intros vt n ops. induction ops as [|o r IH]; intros s stk fac cur Hp Hm Hv; [reflexivity|].
+  rewrite trace_from_cons in *. cbn [take_window fst].
+  destruct (is_end n o) eqn:Eend; [reflexivity|].
+  apply proto_from_cons in Hp. destruct Hp as [stk' [Hstep Hrest]].
+  pose proof (proto_step_keeps _ _ _ n Hstep Hm Eend) as Hm'.
+  destruct (proto_step_open _ _ _ n Hstep Hm) as [Hrep Hnb]. cbn [fst] in Hrep, Hnb.
+  destruct (Nat.eq_dec (op_name o) n) as [Hn|Hn].
+  - destruct (step_self vt s o n Hn) as [Hv' Ho]. rewrite Hv in Hv', Ho.
+    set (s' := fst (rstep vt s o)) in *. set (out := snd (rstep vt s o)) in *.
+    destruct o as [m f|m|m v|m early fout|m|m v|m|m]; cbn [op_name] in Hn; subst m;
+      cbn [is_end republishes] in Eend, Hrep; rewrite ?Nat.eqb_refl in Eend; rewrite ?Nat.eqb_refl in Hrep;
+      try discriminate.
+    + cbn [vstep fst snd] in Hv', Ho. cbn [fresh_from]. rewrite Nat.eqb_refl.
+      exact (IH s' stk' (Some f) cur Hrest Hm' Hv').
+    + cbn [vstep] in Hv', Ho. cbn [fresh_from]. rewrite Nat.eqb_refl.
+      destruct cur as [e|].
+      { cbn [fst snd] in Hv', Ho. rewrite Ho. rewrite ver_eqb_refl. cbn [andb].
+        exact (IH s' stk' fac (Some e) Hrest Hm' Hv'). }
+      destruct early.
+      { destruct fac as [g|].
+        - destruct fout as [v|]; cbn [fst snd] in Hv', Ho; rewrite Ho; rewrite Nat.eqb_refl; cbn [andb].
+          + exact (IH s' stk' None (Some v) Hrest Hm' Hv').
+          + exact (IH s' stk' (Some g) None Hrest Hm' Hv').
+        - cbn [fst snd] in Hv', Ho; rewrite Ho. exact (IH s' stk' None None Hrest Hm' Hv'). }
+      { cbn [fst snd] in Hv', Ho; rewrite Ho. exact (IH s' stk' fac None Hrest Hm' Hv'). }
+    + exfalso. apply Hnb. reflexivity.
+    + cbn [vstep fst snd] in Hv', Ho. cbn [fresh_from]. rewrite Nat.eqb_refl, Ho.
+      cbn [rout_eqb Bool.eqb andb]. exact (IH s' stk' fac cur Hrest Hm' Hv').
+  - assert (Hskip : fresh_from n fac cur ((o, snd (rstep vt s o)) :: take_window n (trace_from vt (fst (rstep vt s o)) r))
+                    = fresh_from n fac cur (take_window n (trace_from vt (fst (rstep vt s o)) r))).
+    { destruct o as [m f|m|m v|m early fout|m|m v|m|m]; cbn [op_name] in Hn; cbn [fresh_from]; try reflexivity;
+        (destruct (Nat.eqb m n) eqn:E; [apply Nat.eqb_eq in E; contradiction|reflexivity]). }
+    rewrite Hskip. apply (IH _ stk' fac cur Hrest Hm'). rewrite rstep_view_other by exact Hn. exact Hv.
+Qed.
+
+Theorem early_ref_fresh_from : forall ops s stk,
+  NoDup stk ->
+  (forall n, vinv (view s n) (mem n stk)) ->
+  proto_from stk (trace_from repaired s ops) = true ->
+  early_ref_fresh_b (trace_from repaired s ops) = true.
+Proof.
+  induction ops as [|o r IH]; intros s stk Hnd Hinv Hp; [reflexivity|].
+  rewrite trace_from_cons in *. apply proto_from_cons in Hp. destruct Hp as [stk' [Hstep Hrest]].
+  pose proof (proto_step_nodup _ _ _ Hstep Hnd) as Hnd'.
+  pose proof (vinv_step s stk o stk' Hnd Hinv Hstep) as Hinv'.
+  specialize (IH _ _ Hnd' Hinv' Hrest).
+  destruct o as [m f|m|m v|m early fout|m|m v|m|m]; cbn [early_ref_fresh_b]; try exact IH.
+  rewrite IH, andb_true_r.
+  destruct (began (snd (rstep repaired s (OBegin m)))) eqn:Eb; [|reflexivity].
+  destruct (began_view _ _ _ Eb) as [l2 [l3 [c [Hv Hv']]]].
+  destruct (proto_step_begin _ _ _ _ Hstep Eb) as [Hclosed Hstk]. subst stk'.
+  specialize (Hinv m). rewrite Hv, Hclosed in Hinv. cbn [vinv] in Hinv. destruct Hinv as [H2 [H3 _]]. subst l2 l3.
+  assert (Hm : mem m (m :: stk) = true) by (rewrite mem_cons, Nat.eqb_refl; reflexivity).
+  exact (fresh_state repaired m r _ _ None None Hrest Hm Hv').
+Qed.
+
+Lemma vinv_init : forall n, vinv (view rinit n) (mem n []).
+Proof. intros n. cbn. repeat split; reflexivity. Qed.
+
+(* ---- strict language: one invocation per window in total ------------------------------------------ *)
+
+Lemma strict_from_cons : forall stk fl e r,
+  strict_from stk fl (e :: r) = true ->
+  exists stk', proto_step stk e = Some stk' /\
+    (fl = true -> exists m, fst e = OEndErr m) /\
+    strict_from stk' (match stk' with [] => false | _ :: _ => fl || is_fail e end) r = true.
+Proof.
+  intros stk fl e r H. cbn [strict_from] in H. destruct (proto_step stk e) as [stk'|]; [|discriminate].
+  apply andb_true_iff in H. destruct H as [H1 H2]. exists stk'. split; [reflexivity|]. split; [|exact H2].
+  intros Hfl. subst fl. destruct (fst e); try discriminate. eexists; reflexivity.
+Qed.
+
+Lemma strict_proto : forall tr stk fl, strict_from stk fl tr = true -> proto_from stk tr = true.
+Proof.
+  induction tr as [|e r IH]; intros stk fl H; [reflexivity|].
+  apply strict_from_cons in H. destruct H as [stk' [Hs [_ Hr]]]. cbn [proto_from]. rewrite Hs. exact (IH _ _ Hr).
+Qed.
+
+(* while an error propagates, nothing is looked up before the window of an open name closes *)
+Lemma strict_failing_window : forall n tr stk,
+  strict_from stk true tr = true -> mem n stk = true -> invocations n (take_window n tr) = [].
+Proof.
+  intros n tr. induction tr as [|e r IH]; intros stk H Hm; [reflexivity|].
+  apply strict_from_cons in H. destruct H as [stk' [Hs [Hfl Hr]]].
+  destruct (Hfl eq_refl) as [m Hm0]. cbn [take_window]. destruct (is_end n (fst e)) eqn:Eend; [reflexivity|].
+  pose proof (proto_step_keeps _ _ _ n Hs Hm Eend) as Hm'.
+  destruct e as [o out]. cbn [fst] in Hm0. subst o. cbn [invocations].
+  destruct stk' as [|k q]; [cbn in Hm'; discriminate|]. cbn [orb] in Hr. exact (IH _ Hr Hm').
+Qed.
+
+Lemma strict_window : forall vt n ops s stk fl l2 l3 c,
+  strict_from stk fl (trace_from vt s ops) = true ->
+  mem n stk = true ->
+  view s n = (None, l2, l3, c) ->
+  length (invocations n (take_window n (trace_from vt s ops))) <= match l2 with Some _ => 0 | None => 1 end.
+Proof.
+  intros vt n ops. induction ops as [|o r IH]; intros s stk fl l2 l3 c Hp Hm Hv.
+  - cbn. lia.
+  - destruct fl.
+    { rewrite (strict_failing_window n _ stk Hp Hm). cbn. lia. }
+    rewrite trace_from_cons in *. cbn [take_window fst].
+    destruct (is_end n o) eqn:Eend; [cbn; lia|].
+    apply strict_from_cons in Hp. destruct Hp as [stk' [Hstep [_ Hrest]]].
+    pose proof (proto_step_keeps _ _ _ n Hstep Hm Eend) as Hm'.
+    destruct (proto_step_open _ _ _ n Hstep Hm) as [Hrep Hnb]. cbn [fst] in Hrep, Hnb.
+    destruct stk' as [|k q]; [cbn in Hm'; discriminate|]. cbn [orb] in Hrest.
+    destruct (Nat.eq_dec (op_name o) n) as [Hn|Hn].
+    + destruct (step_self vt s o n Hn) as [Hv' Ho]. rewrite Hv in Hv', Ho.
+      set (s' := fst (rstep vt s o)) in *. set (out := snd (rstep vt s o)) in *.
+      destruct o as [m f|m|m v|m early fout|m|m v|m|m]; cbn [op_name] in Hn; subst m;
+        cbn [is_end republishes] in Eend, Hrep; rewrite ?Nat.eqb_refl in Eend; rewrite ?Nat.eqb_refl in Hrep;
+        try discriminate.
+      * cbn [vstep fst snd] in Hv', Ho. rewrite Ho in *. cbn [invocations].
+        exact (IH s' _ _ l2 (Some f) c Hrest Hm' Hv').
+      * cbn [vstep] in Hv', Ho. destruct l2 as [e|].
+        { cbn [fst snd] in Hv', Ho. rewrite Ho in *. cbn [invocations]. rewrite ?Nat.eqb_refl.
+          exact (IH s' _ _ (Some e) l3 c Hrest Hm' Hv'). }
+        destruct early.
+        { destruct l3 as [g|].
+          - destruct fout as [v|]; cbn [fst snd] in Hv', Ho; rewrite Ho in *; cbn [invocations];
+              rewrite ?Nat.eqb_refl; cbn [length].
+            + pose proof (IH s' _ _ (Some v) None c Hrest Hm' Hv') as H. cbn in H. lia.
+            + cbn [is_fail] in Hrest. rewrite (strict_failing_window n _ _ Hrest Hm'). cbn. lia.
+          - cbn [fst snd] in Hv', Ho; rewrite Ho in *; cbn [invocations]; rewrite ?Nat.eqb_refl.
+            exact (IH s' _ _ None None c Hrest Hm' Hv'). }
+        { cbn [fst snd] in Hv', Ho; rewrite Ho in *; cbn [invocations]; rewrite ?Nat.eqb_refl.
+          exact (IH s' _ _ None l3 c Hrest Hm' Hv'). }
+      * exfalso. apply Hnb. reflexivity.
+      * cbn [vstep fst snd] in Hv', Ho. rewrite Ho in *. cbn [invocations].
+        exact (IH s' _ _ l2 l3 c Hrest Hm' Hv').
+    + rewrite invocations_other by exact Hn.
+      apply (IH _ _ _ l2 l3 c Hrest Hm'). rewrite rstep_view_other by exact Hn. exact Hv.
+Qed.
+
+Theorem single_invocation_from : forall vt ops s stk fl,
+  strict_from stk fl (trace_from vt s ops) = true ->
+  single_invocation_b (trace_from vt s ops) = true.
+Proof.
+  intros vt ops. induction ops as [|o r IH]; intros s stk fl Hp; [reflexivity|].
+  rewrite trace_from_cons in *. apply strict_from_cons in Hp. destruct Hp as [stk' [Hstep [_ Hrest]]].
+  pose proof (IH _ _ _ Hrest) as IH'.
+  destruct o as [m f|m|m v|m early fout|m|m v|m|m]; cbn [single_invocation_b]; try exact IH'.
+  rewrite IH', andb_true_r.
+  destruct (began (snd (rstep vt s (OBegin m)))) eqn:Eb; [|reflexivity].
+  destruct (began_view _ _ _ Eb) as [l2 [l3 [c [Hv Hv']]]].
+  destruct (proto_step_begin _ _ _ _ Hstep Eb) as [_ Hstk]. subst stk'.
+  assert (Hm : mem m (m :: stk) = true) by (rewrite mem_cons, Nat.eqb_refl; reflexivity).
+  pose proof (strict_window vt m r _ _ _ l2 l3 true Hrest Hm Hv') as H.
+  apply Nat.leb_le. destruct l2; lia.
+Qed.
+
+(* ---- the protocol is prefix closed --------------------------------------------------------------- *)
+
+Lemma proto_from_app : forall a b stk, proto_from stk (a ++ b) = true -> proto_from stk a = true.
+Proof.
+  induction a as [|e r IH]; intros b stk H; [reflexivity|].
+  rewrite <- app_comm_cons in H. cbn [proto_from] in *. destruct (proto_step stk e); [exact (IH _ _ H)|discriminate].
+Qed.
+
+Theorem conforms_prefix : forall vt a b, conforms_v vt (a ++ b) = true -> conforms_v vt a = true.
+Proof.
+  intros vt a b H. unfold conforms_v, protocol, trace in *. rewrite trace_from_app in H.
+  exact (proto_from_app _ _ _ H).
+Qed.
